@@ -244,7 +244,7 @@ func genVars(rnd *rand.Rand) [][2]string {
 			case 1:
 				key = strings.Title(n)
 			}
-			vars = append(vars, [2]string{key, []string{"v", "\"q\"\n/\\", "日", " ", "a\tb\r", "{{x}}", "0"}[rnd.Intn(7)]})
+			vars = append(vars, [2]string{key, []string{"v", "\"q\"\n/\\", "日", " ", "a\tb\r", "{{x}}", "0", "a/b", "http://h/p", "a\\b", "say \"x\"", "\b", "\f", "l1\nl2", "\r", "\t", "/"}[rnd.Intn(17)]})
 		case 1:
 			vars = append(vars, [2]string{n, ""})
 		}
